@@ -2,7 +2,7 @@
 # usage: mkworktree.sh <dir>  -- scratch worktree of /repo HEAD incl. the compiled (git-ignored) build products
 set -e
 D=$1
-git -C /repo worktree add -q --detach "$D" HEAD
+git -C /repo worktree add -q --detach "$D" "${2:-HEAD}"
 cd /repo
 for f in photutils/version.py photutils/compiler_version*.so photutils/geometry/*.so; do cp "$f" "$D/$f"; done
 echo "$D ready"
